@@ -1,3 +1,6 @@
+#[cfg(getong_stateright_verif)]
+use crate::verif::sync::{Condvar, Mutex};
+#[cfg(not(getong_stateright_verif))]
 use parking_lot::{Condvar, Mutex};
 use std::{
     collections::VecDeque,
@@ -57,6 +60,8 @@ where
 {
     /// Create a new market for a group of threads.
     pub fn new(thread_count: usize, close_at: Option<SystemTime>) -> Self {
+        #[cfg(getong_stateright_verif)]
+        use crate::verif::time::{sleep, SystemTime};
         let s = Self {
             has_new_jobs: Arc::new(Condvar::new()),
             market: Arc::new(Mutex::new(JobMarket {
@@ -179,5 +184,18 @@ impl<Job> JobBroker<Job> {
     pub fn is_closed(&self) -> bool {
         let market = self.market.lock();
         !market.open && market.job_batches.is_empty() && market.open_count == 0
+    }
+}
+
+#[cfg(getong_stateright_verif)]
+impl<Job> JobBroker<Job> {
+    /// Verification hook: (open, open_count, sizes of the pending batches).
+    pub(crate) fn verif_snapshot(&self) -> (bool, usize, Vec<usize>) {
+        let market = self.market.lock();
+        (
+            market.open,
+            market.open_count,
+            market.job_batches.iter().map(|b| b.len()).collect(),
+        )
     }
 }
